@@ -367,6 +367,14 @@ def run_one(seed, index, tier):
         out["steps"] = len(sim.trace)
         for k, v in sim.counters.items():
             counters.inc2("sim", k, v)
+        # injected "faults": garbage in halos that start dirty, and the
+        # scheduler-chosen capture/landing instants of asynchronous
+        # exchanges
+        counters.inc2("faults_fired", "field-starts-with-dirty-halo",
+                      sum(1 for v in setup["init"]["clean"].values()
+                          if v < setup["H"]))
+        counters.inc2("faults_fired", "async-exchange-window",
+                      sim.counters.get("async_started", 0))
         counters.inc2("probes", "async_exchange_executed",
                       1 if sim.counters.get("async_started") else 0)
         counters.inc2("probes", "redundant_computation_in_halo",
